@@ -150,7 +150,8 @@ def client_aborts(w, kind, conn, tag, behaviour="hold"):
         if behaviour == "idlehold":
             time.sleep(PROMPT - 1.0)
             h["ids"] = sorted(map(str, mine))
-            h["still_live"] = len(mine) != 1 or bool(mine & live_ids(w))
+            # judged only when the tunnel could be identified before the reset
+            h["still_live"] = bool(mine & live_ids(w)) if mine and not any(isinstance(x, str) for x in mine) else None
     except OSError as e:
         h["error"] = "io: %s" % e
     return h
